@@ -155,7 +155,7 @@ def model (line : String) : String :=
 
 def isCrash (obs : String) : Bool := obs.startsWith "PANIC" || obs == "HANG"
 
-def monitor (op obs : String) : String :=
+def monitorCore (op obs : String) : String :=
   match splitWs op with
   | ["rec", thr, ents, coefs, m] =>
     match thr.toInt?, parseEntries ents, parseNats coefs, m.toNat? with
@@ -261,5 +261,15 @@ def monitor (op obs : String) : String :=
       else "FAIL gjkr-keys-do-not-recover-a-verifying-signature"
     | _, _ => "FAIL gjkr-run-did-not-finish"
   | _ => "FAIL bad-op"
+
+/-- buffer discipline (model-independent): recovery and share validation do not modify their
+    inputs and are functions of the input content only. -/
+def disciplineOk (obs : String) : Bool :=
+  (obs.splitOn "MUTATED-INPUT").length == 1 && (obs.splitOn "ALIASED").length == 1
+    && (obs.splitOn "NONDET").length == 1
+
+def monitor (op obs : String) : String :=
+  if disciplineOk obs then monitorCore op obs
+  else "FAIL input-buffer-discipline (result depends on buffer identity or history, or the input was modified)"
 
 def main (args : List String) : IO UInt32 := driverMain model monitor args
